@@ -4,10 +4,12 @@
    function changes the regenerated definition and the proof below stops checking; a construct outside the translated
    subset removes the definition (Definition translation_failed_<target>) and the theorem stops compiling.
    Statements only (proofs in Proofs/SrcTie*P.v). *)
-From Coq Require Import List Bool ZArith String Ascii.
+From Coq Require Import List Bool ZArith String Ascii Permutation.
 Import ListNotations.
-Require Import MV.Model.PySem MV.Spec.Types MV.Model.LinkSel MV.Gen.Src MV.Gen.TypeTables MV.Proofs.SrcTieP.
-Require MV.Model.Orch MV.Model.Naming MV.Model.ChainParser.
+Require Import MV.Model.PySem MV.Spec.Types MV.Model.LinkSel MV.Gen.Src MV.Gen.SrcPlan MV.Gen.SrcOpt MV.Gen.SrcName MV.Gen.TypeTables
+  MV.Proofs.SrcTieP.
+Require MV.Model.Orch MV.Model.Naming MV.Model.ChainParser MV.Model.PlannerA MV.Model.PlannerL MV.Model.PyObj.
+Require MV.Model.Options MV.Model.PyObjOpt MV.Spec.OptionsSpec.
 
 (* ---------------- C18: mloda/core/abstract_plugins/components/index/index.py ---------------- *)
 (* Index.is_a_part_of_ never raises (the t[i] it contains stays in range) and is the model C18_index_prefix is about *)
@@ -111,6 +113,214 @@ Theorem SrcTie_is_chained_feature : forall s,
 Proof. exact is_chained_feature_src. Qed.
 Print Assumptions SrcTie_is_chained_feature.
 
+(* ---------------- C03 (round 2): abstract_plugins/compute_framework.py  identify_naming_convention (coq/Gen/SrcName.v) ---------------- *)
+(* Optional[str] ordering with a default, a set comprehension, f-strings, sorted / list.sort, list.extend with a generator that
+   reads the list it extends, a result that is a set (inl) or a list (inr): the function IS Naming.identify - ValueError exactly
+   when the model says RErr - for every iteration order of the FeatureName set (iter: the model's parameter), every set of
+   columns and every order in which the two sets the function builds itself are iterated (ord: any permutation) *)
+Theorem SrcTie_identify_naming_convention : forall ord, (forall s l, Permutation (ord s l) l) ->
+  forall iter cols o, NoDup cols ->
+  ComputeFramework_identify_naming_convention ord iter cols o = of_result (Naming.identify iter cols (ordering_of o)).
+Proof. exact identify_naming_convention_src. Qed.
+Print Assumptions SrcTie_identify_naming_convention.
+
+(* ---------------- C04, the planner (round 2): coq/Gen/SrcPlan.v; data model of the planner objects: Model/PyObj.v ---------------- *)
+(* mloda/core/core/step/join_step.py  JoinStep.get_uuids = the uuids PlannerL gives its LJOIN step *)
+Theorem SrcTie_joinstep_get_uuids : forall s, JoinStep_get_uuids s = [PlannerL.js_uid (fst s); fst s].
+Proof. exact joinstep_get_uuids_src. Qed.
+Print Assumptions SrcTie_joinstep_get_uuids.
+
+(* mloda/core/prepare/joinstep_collection.py  similar_dependent_joins_uuids: the dict is iterated in insertion order (its
+   keys), the result is PlannerL.jc_required of those keys - the same list, not only the same set *)
+Theorem SrcTie_similar_dependent_joins_uuids : forall collection lf rf,
+  JoinStepCollection_similar_dependent_joins_uuids collection lf rf = PlannerL.jc_required (py_dict_keys collection) lf rf.
+Proof. exact similar_dependent_joins_uuids_src. Qed.
+Print Assumptions SrcTie_similar_dependent_joins_uuids.
+
+(* JoinStepCollection.add: collection[join_step] = similar_dependent_joins_uuids(...); for a JoinStep that is not a key yet
+   (JoinStep.__eq__ compares the uuid4 of the object) the entry is appended: exactly the jc / jr of PlannerL.add_joinstep *)
+Theorem SrcTie_joinstep_collection_add : forall collection js,
+  JoinStepCollection_add collection js
+  = (tt, py_dict_set PyObj.jstep_eqb collection js
+           (PlannerL.jc_required (py_dict_keys collection) (PyObj.js_left js) (PyObj.js_right js))).
+Proof. exact joinstep_collection_add_src. Qed.
+Print Assumptions SrcTie_joinstep_collection_add.
+
+Theorem SrcTie_joinstep_collection_add_fresh : forall collection js,
+  py_dict_mem PyObj.jstep_eqb js collection = false ->
+  JoinStepCollection_add collection js
+  = (tt, collection ++ [(js, PlannerL.jc_required (py_dict_keys collection) (PyObj.js_left js) (PyObj.js_right js))]).
+Proof. exact joinstep_collection_add_fresh. Qed.
+Print Assumptions SrcTie_joinstep_collection_add_fresh.
+
+(* mloda/core/prepare/resolve_compute_frameworks.py  ResolveComputeFrameworks.order_queue_by_trekker_order: the five nested
+   loops with the `breaker` flags, the defaultdict of postponed links and the inner `k` that shadows the outer one ARE
+   PlannerL.order_queue (blocked / iadd / oq_step), for every planned queue, every LinkTrekker.order and every order oracle;
+   in particular the function never raises.  The set of links postponed under link k is iterated in the order
+   PlannerL.ordk ord (site_issue k) - the one place where the order is not determined by the program. *)
+Theorem SrcTie_order_queue_by_trekker_order : forall ord planned_queue link_trekker,
+  ResolveComputeFrameworks_order_queue_by_trekker_order ord planned_queue link_trekker
+  = PlannerL.order_queue ord (PlannerL.t_order link_trekker) planned_queue.
+Proof. exact order_queue_by_trekker_order_src. Qed.
+Print Assumptions SrcTie_order_queue_by_trekker_order.
+
+(* mloda/core/prepare/resolve_links.py  LinkTrekker.order_links_by_frameworks.  The method ends with a call of
+   self.drop_dependency_in_case_of_circular_dependencies(), which is not translated (nested function, sets shared between
+   self.order and the loop variables): the callee is a PARAMETER of the generated definition.  For EVERY callee the method
+   is: self.order := PlannerL.olbf self.data self.order (the KeyError of self.order[k].add cannot happen), then the call. *)
+Theorem SrcTie_order_links_by_frameworks : forall (drop : PlannerL.trek -> res unit * PlannerL.trek) self,
+  LinkTrekker_order_links_by_frameworks drop self
+  = drop (PyObj.trek_set_order self (PlannerL.olbf (PlannerL.t_data self) (PlannerL.t_order self))).
+Proof. exact order_links_by_frameworks_src. Qed.
+Print Assumptions SrcTie_order_links_by_frameworks.
+
+(* with the callee as PlannerL models it (drop_model: drop_circular, None = the ValueError 'Link not found in data!') the
+   method is PlannerL.order_links_by_frameworks *)
+Theorem SrcTie_order_links_by_frameworks_model : forall self,
+  LinkTrekker_order_links_by_frameworks drop_model self
+  = match PlannerL.order_links_by_frameworks (PlannerL.t_data self) (PlannerL.t_order self) with
+    | Some o => (Ok tt, PyObj.trek_set_order self o)
+    | None => (Raise ValueError, PyObj.trek_set_order self (PlannerL.olbf (PlannerL.t_data self) (PlannerL.t_order self)))
+    end.
+Proof. exact order_links_by_frameworks_model. Qed.
+Print Assumptions SrcTie_order_links_by_frameworks_model.
+
+(* LinkTrekker.order_ordered_ids_by_relation (Optional[int] latest_position, pos_marker: Dict[int, Tuple[UUID, Set[UUID]]],
+   range, max, OrderedDict.move_to_end) IS PlannerL.reorder_rel, for every order whose keys are pairwise different (self.order
+   is a dict): it never raises (no KeyError, no ValueError of max) and leaves self.order = reorder_rel self.order *)
+Theorem SrcTie_order_ordered_ids_by_relation : forall self, NoDup (map fst (PlannerL.t_order self)) ->
+  LinkTrekker_order_ordered_ids_by_relation self
+  = (Ok tt, PyObj.trek_set_order self (PlannerL.reorder_rel (PlannerL.t_order self))).
+Proof. exact order_ordered_ids_by_relation_src. Qed.
+Print Assumptions SrcTie_order_ordered_ids_by_relation.
+
+(* LinkTrekker.get_ordered_data: for EVERY three callees it calls them in the order order_links_by_frameworks,
+   order_ordered_ids_by_relation, create_data_ordered, stops at the first that raises and returns self.data_ordered *)
+Theorem SrcTie_get_ordered_data : forall f1 f2 f3 self,
+  LinkTrekker_get_ordered_data f1 f2 f3 self
+  = seq_call f1 (seq_call f2 (seq_call f3 (fun s => (Ok (PlannerL.t_dor s), s)))) self.
+Proof. exact get_ordered_data_src. Qed.
+Print Assumptions SrcTie_get_ordered_data.
+
+(* with the callees as PlannerL models them it is PlannerL.get_ordered_data *)
+Theorem SrcTie_get_ordered_data_model : forall t,
+  match PlannerL.get_ordered_data t with
+  | PlannerL.Ok t' => LinkTrekker_get_ordered_data olbf_model reorder_model cdo_model t = (Ok (PlannerL.t_dor t'), t')
+  | PlannerL.Err _ => exists e s, LinkTrekker_get_ordered_data olbf_model reorder_model cdo_model t = (Raise e, s)
+  end.
+Proof. exact get_ordered_data_model. Qed.
+Print Assumptions SrcTie_get_ordered_data_model.
+
+(* mloda/core/prepare/execution_plan.py  ExecutionPlan._validate_required_uuids_are_produced.  It ends with the call of
+   _validate_steps_do_not_wait_in_a_cycle (a `while` loop: outside the subset), a PARAMETER here.  For EVERY callee:
+   ValueError and the plan untouched unless PlannerA.validate_A holds, otherwise the call.  step.get_uuids() is dispatched on
+   the step class: the data model reads it as Orch.uuids. *)
+Theorem SrcTie_validate_required_uuids_are_produced : forall (cyc : Orch.plan -> res unit * Orch.plan) p,
+  ExecutionPlan_validate_required_uuids_are_produced cyc p = if PlannerA.validate_A p then cyc p else (Raise ValueError, p).
+Proof. exact validate_required_uuids_are_produced_src. Qed.
+Print Assumptions SrcTie_validate_required_uuids_are_produced.
+
+(* with the callee as PlannerA models it (cycle_model: runsim_accepts) the plan is accepted iff the last two tests of
+   prepare_A / prepare_L pass *)
+Theorem SrcTie_validate_required_uuids_are_produced_model : forall p,
+  fst (ExecutionPlan_validate_required_uuids_are_produced cycle_model p) = Ok tt
+  <-> (PlannerA.validate_A p && PlannerA.runsim_accepts p = true)%bool.
+Proof. exact validate_required_uuids_are_produced_model. Qed.
+Print Assumptions SrcTie_validate_required_uuids_are_produced_model.
+
+(* ---------------- C15, options (round 2): coq/Gen/SrcOpt.v; data model of the objects: Model/PyObjOpt.v ---------------- *)
+(* components/options.py  Options.get never raises (self.group[key] is read under `if key in self.group`) and is o_get *)
+Theorem SrcTie_options_get : forall s k, Options_get s k = Ok (Options.o_get k s).
+Proof. exact options_get_src. Qed.
+Print Assumptions SrcTie_options_get.
+
+Theorem SrcTie_options_items : forall s, Options_items s = Options.o_items s.
+Proof. exact options_items_src. Qed.
+Print Assumptions SrcTie_options_items.
+
+(* components/validators/options_validator.py  validate_can_add_to_group = the two tests of o_add_group *)
+Theorem SrcTie_validate_can_add_to_group : forall k v g c,
+  OptionsValidator_validate_can_add_to_group k v g c = if add_group_rejects k v g c then Raise ValueError else Ok tt.
+Proof. exact validate_can_add_to_group_src. Qed.
+Print Assumptions SrcTie_validate_can_add_to_group.
+
+(* Options.add_to_group / Options.add: the object left behind and the exception, as Model/Options.v has them
+   (PyObjOpt.of_oerr: (s, None) = (Ok tt, s), (s, Some EValue) = (Raise ValueError, s), (s, Some EType) = (Raise TypeError, s)) *)
+Theorem SrcTie_options_add_to_group : forall s k v, Options_add_to_group s k v = PyObjOpt.of_oerr (Options.o_add_group k v s).
+Proof. exact options_add_to_group_src. Qed.
+Print Assumptions SrcTie_options_add_to_group.
+
+Theorem SrcTie_options_add : forall s k v, Options_add s k v = PyObjOpt.of_oerr (Options.o_step s (Options.OpAdd k v)).
+Proof. exact options_add_src. Qed.
+Print Assumptions SrcTie_options_add.
+
+Theorem SrcTie_validate_can_add_to_context : forall k v g c,
+  OptionsValidator_validate_can_add_to_context k v g c = if add_group_rejects k v c g then Raise ValueError else Ok tt.
+Proof. exact validate_can_add_to_context_src. Qed.
+Print Assumptions SrcTie_validate_can_add_to_context.
+
+Theorem SrcTie_options_add_to_context : forall s k v,
+  Options_add_to_context s k v = PyObjOpt.of_oerr (Options.o_add_context k v s).
+Proof. exact options_add_to_context_src. Qed.
+Print Assumptions SrcTie_options_add_to_context.
+
+(* Options.set never raises and leaves o_set's state *)
+Theorem SrcTie_options_set : forall s k v,
+  Options_set s k v = (tt, fst (Options.o_set k v s)) /\ snd (Options.o_set k v s) = None.
+Proof. exact options_set_src. Qed.
+Print Assumptions SrcTie_options_set.
+
+(* components/feature_collection.py  Features.merge_options.  The final call feature_options.update_with_protected_keys(child)
+   is a PARAMETER (not translated: dict comprehension with a filter, del, default argument).  For EVERY callee: TypeError when
+   the value under feature_chainer_parser_key cannot be iterated, ValueError when a key that is not protected has different
+   values on the two sides - nothing is changed in both cases -, otherwise the call *)
+Theorem SrcTie_merge_options : forall (upd : Options.ostate -> Options.ostate -> res unit * Options.ostate) s child,
+  Features_merge_options upd s child
+  = match Options.default_protected s with
+    | None => (Raise TypeError, s)
+    | Some pk => if merge_conflict pk s child then (Raise ValueError, s) else upd s child
+    end.
+Proof. exact merge_options_src. Qed.
+Print Assumptions SrcTie_merge_options.
+
+(* with the callee as Model/Options.v has it (o_update with the default protected keys) the method is o_merge *)
+Theorem SrcTie_merge_options_model : forall s child,
+  Features_merge_options update_model s child = PyObjOpt.of_oerr (Options.o_merge child s).
+Proof. exact merge_options_model. Qed.
+Print Assumptions SrcTie_merge_options_model.
+
+(* validators/options_validator.py  the two conflict checks of update_with_protected_keys *)
+Theorem SrcTie_validate_no_group_context_conflicts : forall a b,
+  OptionsValidator_validate_no_group_context_conflicts a b
+  = if existsb (fun k => Options.kmem k b) a then Raise ValueError else Ok tt.
+Proof. exact validate_no_group_context_conflicts_src. Qed.
+Print Assumptions SrcTie_validate_no_group_context_conflicts.
+
+Theorem SrcTie_validate_no_context_group_conflicts : forall a b,
+  OptionsValidator_validate_no_context_group_conflicts a b
+  = if existsb (fun k => Options.kmem k b) a then Raise ValueError else Ok tt.
+Proof. exact validate_no_context_group_conflicts_src. Qed.
+Print Assumptions SrcTie_validate_no_context_group_conflicts.
+
+(* components/options.py  Options.update_with_protected_keys (default argument, `Set[str] | None` re-bound in the None branch,
+   `for key in <Any>`, dict.copy, del, dict comprehension with a filter, `k in d and d[k] != v`, dict.update) IS Options.o_update:
+   the object left behind AND the exception, for every state, every other Options whose group is a dict (pairwise different
+   keys) and every order in which the value under feature_chainer_parser_key and the set of protected keys are iterated (ord: any
+   function that returns the same keys) *)
+Theorem SrcTie_update_with_protected_keys : forall ord, (forall site l k, Options.kmem k (ord site l) = Options.kmem k l) ->
+  forall s other prot, OptionsSpec.nodupk (Options.dkeys (Options.og other)) ->
+  Options_update_with_protected_keys ord s other prot = PyObjOpt.of_oerr (Options.o_update other prot s).
+Proof. exact update_with_protected_keys_src. Qed.
+Print Assumptions SrcTie_update_with_protected_keys.
+
+(* merge_options with the callee it really calls: update_with_protected_keys(child) with the default argument *)
+Theorem SrcTie_merge_options_full : forall ord, (forall site l k, Options.kmem k (ord site l) = Options.kmem k l) ->
+  forall s child, OptionsSpec.nodupk (Options.dkeys (Options.og child)) ->
+  Features_merge_options (fun fo co => Options_update_with_protected_keys ord fo co None) s child
+  = PyObjOpt.of_oerr (Options.o_merge child s).
+Proof. exact merge_options_full. Qed.
+Print Assumptions SrcTie_merge_options_full.
+
 (* non-vacuity: the regenerated definitions compute, on both sides of each decision *)
 Example SrcTie_examples :
   Index_is_a_part_of_ ["a"%string] ["a"%string; "b"%string] = Ok true /\
@@ -127,4 +337,46 @@ Example SrcTie_examples :
   LinkValidator_validate_no_double_joins
     [ {| jt := INNER; lfg := 0%nat; rfg := 1%nat; lidx := ["k"%string]; ridx := ["k"%string] |};
       {| jt := LEFT; lfg := 1%nat; rfg := 0%nat; lidx := ["k"%string]; ridx := ["k"%string] |} ] = Raise ValueError.
+Proof. vm_compute. repeat split. Qed.
+
+(* the planner targets compute: link 4 waits for link 0 and arrives first, so it is postponed and follows directly behind it;
+   two join steps that share framework 1: the second one requires the uuids of the first *)
+Example SrcTie_plan_examples :
+  ResolveComputeFrameworks_order_queue_by_trekker_order PlannerA.ord_id
+    [PlannerL.PL (4, (1, 2)); PlannerL.PG 7 [3]; PlannerL.PL (0, (0, 1))]%nat
+    {| PlannerL.t_data := []; PlannerL.t_dor := []; PlannerL.t_order := [(0, [4])]%nat |}
+  = [PlannerL.PG 7 [3]; PlannerL.PL (0, (0, 1)); PlannerL.PL (4, (1, 2))]%nat /\
+  JoinStepCollection_similar_dependent_joins_uuids [((0, (0, 1)), []); ((4, (2, 3)), [])]%nat 1%nat 5%nat = [1; 0]%nat /\
+  snd (JoinStepCollection_add [((0, (0, 1)), [])]%nat (4, (1, 2))%nat) = [((0, (0, 1)), []); ((4, (1, 2)), [1; 0])]%nat /\
+  (* link 0 (frameworks 0 -> 1) has to come before link 4 (frameworks 1 -> 2): order = {4: {0}} *)
+  PlannerL.t_order (snd (LinkTrekker_order_links_by_frameworks (fun s => (Ok tt, s))
+    {| PlannerL.t_data := [((0, (0, 1)), [9]); ((4, (1, 2)), [9])]%nat; PlannerL.t_dor := []; PlannerL.t_order := [] |}))
+  = [(4, [0])]%nat /\
+  (* {8: {4}, 4: {0}} is turned round: 4 is a dependent of a later entry *)
+  PlannerL.t_order (snd (LinkTrekker_order_ordered_ids_by_relation
+    {| PlannerL.t_data := []; PlannerL.t_dor := []; PlannerL.t_order := [(4, [0]); (8, [4])]%nat |}))
+  = [(8, [4]); (4, [0])]%nat.
+Proof. vm_compute. repeat split. Qed.
+
+(* the option targets compute: a child value that differs under a key that is not protected is a ValueError and leaves the
+   parent as it was; under a key listed by the parent's feature_chainer_parser_key it is not *)
+Example SrcTie_opt_examples :
+  let a := Options.KStr "a" in
+  let parent v := {| Options.og := (a, Options.VInt 1) :: v; Options.oc := []; Options.opk := [] |} in
+  let child := {| Options.og := [(a, Options.VInt 2)]; Options.oc := []; Options.opk := [] |} in
+  fst (Features_merge_options update_model (parent []) child) = Raise ValueError /\
+  fst (Features_merge_options update_model (parent [(Options.k_chainer, Options.VList [Options.VStr "a"])]) child) = Ok tt /\
+  Options_get (parent []) a = Ok (Options.VInt 1) /\
+  fst (Options_add (parent []) a (Options.VInt 2)) = Raise ValueError /\
+  fst (Options_add (parent []) a (Options.VBool true)) = Ok tt /\
+  (* update with protected key a: the child's a is not merged; without: it replaces the parent's *)
+  Options.og (snd (Options_update_with_protected_keys (fun _ l => l) (parent []) child (Some [a]))) = [(a, Options.VInt 1)] /\
+  Options.og (snd (Options_update_with_protected_keys (fun _ l => rev l) (parent []) child None)) = [(a, Options.VInt 2)].
+Proof. vm_compute. repeat split. Qed.
+
+Example SrcTie_name_examples :
+  ComputeFramework_identify_naming_convention (fun _ l => rev l) ["f"%string; "g"%string] ["g~2"%string; "x"%string; "f"%string; "g~1"%string]
+    (Some "request_order"%string) = Ok (inr ["f"%string; "g~1"%string; "g~2"%string]) /\
+  ComputeFramework_identify_naming_convention (fun _ l => l) ["f"%string] ["x"%string] None = Raise ValueError /\
+  ComputeFramework_identify_naming_convention (fun _ l => l) ["f"%string] ["f"%string] (Some "other"%string) = Raise ValueError.
 Proof. vm_compute. repeat split. Qed.
